@@ -7,7 +7,7 @@ META = {
     "explanation": "R1 byte mode: ByteDelimitedArgumentReader::next compares input bytes only with self.delimiter, calls no classification/trimming function, passes bytes through the allow-listed conversions only; "
                    "R2 reader selection (delimiter => byte reader, none => whitespace reader) and the delimiter decision table of normalize_options simulated on all assignments; "
                    "R3 state carried across refills: no write to the tokenizer state (escape, result, terminator/argument flags) in the refill region; unconsumed bytes saved with split_off(i+1); EOF inside a quote is an error; "
-                   "R4 emission guard: every path to Ok(Some(Argument)) passes a token-start event or the true edge of a flag only set at such events; "
+                   "R4 emission guard: every path to Ok(Some(Argument)) passes a token-start event or the true edge of a flag only set at such events; where quotes can open, the delivery decision does not rest on the collected bytes being non-empty (an empty quoted argument is an argument); "
                    "R5 terminator kind: hard iff the terminating byte was newline (writers of the flag), kind selected from it; R6 special-byte table of the default mode {\" ' \\\\} + is_ascii_whitespace",
     "decides": "R1 also: in -0/-d mode an empty field is an argument (the retry path of the byte reader is switched by a flag that do_xargs sets from -0/-d); R4 also the converse — every token-start event raises the in-argument flag before the next byte is examined; which bytes can influence tokenisation in each mode, that tokenizer state survives every refill of the buffer, and that no argument is emitted without having been started",
     "does_not_decide": "that the quote/escape language equals GNU's on every byte string; UTF-8 validity handling (lossy conversion is allow-listed)",
